@@ -730,8 +730,12 @@ func (p *Printer) wordPart(wp, next WordPart) {
 			p.space()
 		}
 		p.w.WriteString(wp.Op.String())
+		// See the same in cmdSubst.
+		hdocs := p.pendingHdocs
+		p.pendingHdocs = nil
 		p.nestedStmts(wp.Stmts, wp.Last, wp.Rparen)
 		p.rightParen(wp.Rparen)
+		p.pendingHdocs = append(p.pendingHdocs, hdocs...)
 	}
 }
 
@@ -882,8 +886,14 @@ func (p *Printer) cmdSubst(cs *CmdSubst) {
 		} else {
 			p.wantSpace = spaceNotRequired
 		}
+		// The bodies of any heredocs pending in the enclosing statement come after
+		// the line which ends the command substitution, not after its first line;
+		// the parser does not read them inside of it either.
+		hdocs := p.pendingHdocs
+		p.pendingHdocs = nil
 		p.nestedStmts(cs.Stmts, cs.Last, cs.Right)
 		p.closingParen(cs.Stmts, cs.Last, cs.Left, cs.Right)
+		p.pendingHdocs = append(p.pendingHdocs, hdocs...)
 	}
 }
 
